@@ -823,9 +823,8 @@ func (fx *FnExec) frameFact(n string, h *Heap, byName map[string][]string) strin
 		fx.c.nfresh++
 		q := fmt.Sprintf("q!r!%d", fx.c.nfresh)
 		conds := []string{}
-		if !strings.HasPrefix(n, "ghost.") {
-			conds = append(conds, sLt(q, fx.allocName))
-		}
+		// fresh references are invisible to the caller (ghost arrays with an Int index are indexed by references)
+		conds = append(conds, sLt(q, fx.allocName))
 		for _, a := range allowed {
 			conds = append(conds, sNot(sEq(q, a)))
 		}
